@@ -57,6 +57,8 @@ impl Family for C18 {
       ("check_subscribed", Json::Bool(rng.below(2) == 0)),
       // after this many Pending polls the future is polled with a different waker (as when it moves to another task)
       ("new_waker_after", Json::Int(if rng.below(3) == 0 { rng.range(1, 2) as i64 } else { -1 })),
+      // a clone of the future, polled once after the original has resolved, yields the same result
+      ("second_handle", Json::Bool(rng.below(3) == 0)),
     ])
   }
   fn knobs(&self, rng: &mut Rng, _w: &Json, _tier: Tier) -> Json {
@@ -79,6 +81,9 @@ impl Family for C18 {
     let eager = w.i("eager_polls").clamp(0, 4);
     let check_sub = w.b("check_subscribed");
     let new_waker_after = if w.get("new_waker_after").is_some() { w.i("new_waker_after") } else { -1 };
+    let second_handle = w.get("second_handle").is_some() && w.b("second_handle");
+    let second: Arc<Mutex<Option<Option<Result<Vec<i64>, i64>>>>> = Arc::new(Mutex::new(None));
+    let second2 = second.clone();
     let src_log = Arc::new(Mutex::new(SrcLog::default()));
     let polls: Arc<Mutex<Vec<PollRec>>> = Arc::new(Mutex::new(Vec::new()));
     let flag = Arc::new(Flag { m: SimMutex::new(false), cv: Condvar::new(), wakes: Mutex::new(0) });
@@ -92,7 +97,9 @@ impl Family for C18 {
       } else {
         cold_source(vec![sc], sl, None, check_sub)
       };
-      let mut fut = Box::pin(o.to_vec());
+      let first = o.to_vec();
+      let mut other = if second_handle { Some(Box::pin(first.clone())) } else { None };
+      let mut fut = Box::pin(first);
       let mut fl = fl;
       let mut waker = Waker::from(fl.clone());
       let mut n = 0;
@@ -114,6 +121,14 @@ impl Family for C18 {
         let done = ready.is_some();
         pl.lock().unwrap().push(PollRec { seq_start, seq_end, ready });
         if done {
+          if let Some(f2) = other.as_mut() {
+            let r2 = f2.as_mut().poll(&mut cx);
+            *second2.lock().unwrap() = Some(match r2 {
+              Poll::Ready(Ok(buf)) => Some(Ok(buf.read().unwrap().iter().map(|v: &Val| v.int()).collect::<Vec<_>>())),
+              Poll::Ready(Err(e)) => Some(Err(err_id(&e))),
+              Poll::Pending => None,
+            });
+          }
           break;
         }
         n += 1;
@@ -160,6 +175,11 @@ impl Family for C18 {
         Some(Step::E(id)) => Err(*id),
         _ => Ok(expect_items),
       };
+      if let Some(r2) = second.lock().unwrap().clone() {
+        if r2 != Some(expect.clone()) {
+          v.push(Violation::new("wrong-result", blame, format!("a clone of the future, polled after the original had resolved, yielded {:?}; the source script {:?} demands {:?}", r2, script.iter().map(|s| s.show()).collect::<Vec<_>>(), expect)));
+        }
+      }
       match polls.last() {
         Some(PollRec { ready: Some(r), .. }) => {
           if *r != expect {
